@@ -65,7 +65,7 @@ EvalCallStrict(f0, vals) ==
     CASE f = "SUM"    -> SumArgs(vals)
       [] f = "COUNTA" -> IF AnyOpenIn(FlatVals(vals)) THEN Open ELSE Whole(CountNonBlank(FlatVals(vals)))
       \* (XlAgg determines the folds over numbers, empty cells and plain text in ranges and over numbers written as arguments)
-      [] f \in {"MAX", "MIN", "AVERAGE"} -> (LET fe == FirstErr(FlatVals(vals)) IN IF fe.t = "err" THEN fe ELSE LibCall(f, vals))
+      [] f \in {"MAX", "MIN", "AVERAGE"} -> (LET fe == LeftmostErr(FlatVals(vals)) IN IF fe.t # "none" THEN fe ELSE LibCall(f, vals))
       [] OTHER        -> LibCall(f, vals)          \* every modelled function family
 
 RECURSIVE Eval(_, _, _)
@@ -129,6 +129,6 @@ Eval(a, sh, wb) ==
       \* there, as in a range, while the same value written in the formula is converted): no property fixes it - left open
       [] a.k = "call" /\ a.f = "SUM" /\ (\E i \in 1..Len(a.args) : a.args[i].k \in {"ref", "name"}
                                              /\ Eval(a.args[i], sh, wb).t \in {"txt", "bool"}) ->
-            LET fe == FirstErr(FlatVals(EvalArgs(a.args, sh, wb))) IN IF fe.t = "err" THEN fe ELSE Open
+            LET fe == LeftmostErr(FlatVals(EvalArgs(a.args, sh, wb))) IN IF fe.t # "none" THEN fe ELSE Open
       [] a.k = "call" -> EvalCallStrict(a.f, EvalArgs(a.args, sh, wb))
 =============================================================================
